@@ -4,6 +4,6 @@ import VibeProof.Props.C14
 #print axioms VibeProof.C14.C14_release_changes_no_data
 #print axioms VibeProof.C14.C14_unknown_savepoint_is_error
 #print axioms VibeProof.C14.C14_no_transaction_is_error
-#print axioms VibeProof.C14.C14_rollback_to_restores_partial
-#print axioms VibeProof.C14.C14_delete_counterexample
-#print axioms VibeProof.C14.C14_update_counterexample
+#print axioms VibeProof.C14.undoAll_restores
+#print axioms VibeProof.C14.C14_rollback_to_restores
+#print axioms VibeProof.C14.C14_former_counterexamples_restored
